@@ -33,10 +33,19 @@ def m_obligations(tier):
         obs.append(dict(id=f"FXPair::try_new({a},{b})", kind="fxpair", a=a, b=b))
     for wm in ([], [0], [5, 6], [0, 1, 2, 3, 4, 5], [6, 6], [7], [0, 255]):
         obs.append(dict(id=f"Cal::new week mask {wm}", kind="cal_new", wm=wm))
+    # spline solving: site-count mismatches must be Err, never an abort (obligations shared with C15)
+    from specs import C15
+    for o in C15.obligations(tier):
+        if o["what"] == "errors":
+            o = dict(o); o["kind"] = "c15"; o["id"] = "PPSpline::csolve " + o["id"]
+            obs.append(o)
     return obs
 
 
 def m_worker(ob):
+    if ob.get("kind") == "c15":
+        from specs import C15
+        return C15.worker(ob)
     P, S = get_world()
     kind = ob["kind"]
     info = {"panic_inputs": []}
